@@ -10,7 +10,7 @@ SE_RECS = {
     'Registry': r'^ffsm2::detail::Registry$', 'C_': r'^ffsm2::detail::C_<.*Manual', 'C_A': r'^ffsm2::detail::C_<.*Automatic',
     'PlanControlT': r'^ffsm2::detail::PlanControlT<.*Manual', 'ControlT': r'^ffsm2::detail::ControlT<.*Manual', 'PlanDataT': r'^ffsm2::detail::PlanDataT<.*Manual',
     'BitWriteStreamT': r'^ffsm2::detail::BitWriteStreamT<', 'BitReadStreamT': r'^ffsm2::detail::BitReadStreamT<', 'StreamBufferT': r'^ffsm2::detail::StreamBufferT<',
-    'ArgsT': r'^ffsm2::detail::ArgsT<.*Manual',
+    'ArgsT': r'^ffsm2::detail::ArgsT<.*Manual', 'RF_': r'^ffsm2::detail::RF_<.*Manual',
     'TL_': r'^ffsm2::detail::TL_<W<ffsm2::detail::G_<\d+,Ctx&,ffsm2::Manual.*::A,',
 }
 DCONSTS = {'StreamBufferT__NBitCapacity': ('range', 2, 9), 'BitWriteStreamT__NBitCapacity': ('expr', 'StreamBufferT__NBitCapacity'), 'BitReadStreamT__NBitCapacity': ('expr', 'StreamBufferT__NBitCapacity'),
@@ -20,8 +20,10 @@ WB = 'C___WIDTH_BITS'
 NS_ = 'C___WIDTH'                      # number of sub-states of the root region = state count
 BITCAP = 'StreamBufferT__BIT_CAPACITY'
 SE_CONSTS = {'CI__sizeof_TSubStates': ('range', 1, 255), 'G__NSubstitutionLimit': ('range', 1, 255), 'TL___sizeof_Ts': ('expr', 'CI__sizeof_TSubStates'),
-             # the serial buffer is declared with RF_::SERIAL_BITS = 1 + bitWidth(state count) bits (checked against the witness instantiation)
-             'StreamBufferT__NBitCapacity': ('expr', '1 + C___WIDTH_BITS'), 'BitWriteStreamT__NBitCapacity': ('expr', 'StreamBufferT__NBitCapacity'),
+             # the serial buffer is declared as StreamBufferT<ArgsT::SERIAL_BITS>, ArgsT is instantiated with RF_::SERIAL_BITS; the value of
+             # RF_::SERIAL_BITS is *lowered from the code* (1 + Apex::ACTIVE_BITS = 1 + bitWidth(state count)), not restated here, so a
+             # buffer too small for what save() writes fails write()'s precondition.  The two alias facts are checked natively on the witness.
+             'StreamBufferT__NBitCapacity': ('expr', 'ArgsT__SERIAL_BITS'), 'ArgsT__NSerialBits': ('expr', 'RF___SERIAL_BITS'), 'BitWriteStreamT__NBitCapacity': ('expr', 'StreamBufferT__NBitCapacity'),
              'BitReadStreamT__NBitCapacity': ('expr', 'StreamBufferT__NBitCapacity')}
 SE_GHOST = ['uint8_t g_q;   /* arbitrary bit index of the buffer */',
             '/* expected bit q of the canonical encoding of (activity, active state) */',
@@ -40,7 +42,7 @@ def write_contract(width):
                          implies('g_q >= self->_cursor', 'BUF_BIT(%s, g_q) == 0' % D)])
 def se_unit(id_, cls, name, nparams, contracts, calls, props=None, **kw):
     u = dict(id='serial.' + id_, witness=WS, recs=SE_RECS, opaque=SE_OPAQUE, props=props or ['C12', 'C18'], target=dict(cls=cls, name=name, nparams=nparams),
-             consts=SE_CONSTS, ghost=SE_GHOST, array_max={'StreamBufferT._data': 2}, need_consts=['C_.WIDTH_BITS', 'C_.WIDTH', 'StreamBufferT.BIT_CAPACITY'],
+             consts=SE_CONSTS, ghost=SE_GHOST, array_max={'StreamBufferT._data': 2}, need_consts=['RF_.SERIAL_BITS', 'ArgsT.SERIAL_BITS', 'C_.WIDTH_BITS', 'C_.WIDTH', 'StreamBufferT.BIT_CAPACITY'],
              calls=calls, contracts=contracts)
     u.update(kw)
     return u
@@ -149,7 +151,7 @@ LOAD_ENTER = dict(
 def l_unit(id_, cls, name, nparams, contracts, calls, **kw):
     kw.setdefault('ghost', LGHOST)
     return se_unit(id_, cls, name, nparams, contracts, dict({'re:^C___': 'contract'}, **calls), opaque=SE_OPAQUE + [r'^ffsm2::detail::C_<'], opaque_keep=SERIAL_KEEP,
-                   need_consts=['C_.WIDTH_BITS', 'C_.WIDTH', 'StreamBufferT.BIT_CAPACITY', 'ArgsT.STATE_COUNT'], **kw)
+                   need_consts=['RF_.SERIAL_BITS', 'ArgsT.SERIAL_BITS', 'C_.WIDTH_BITS', 'C_.WIDTH', 'StreamBufferT.BIT_CAPACITY', 'ArgsT.STATE_COUNT'], **kw)
 UNITS += [
     l_unit('R_.load', SE_RECS['R_M'], 'load', 1, dict({'R_M__load': R_LOAD, 'C___deepLoadRequested': LOAD_REQ, 'C___deepChangeToRequested': C_CHANGE_S}, **PLANDATA_CLEAR),
            {'PlanDataT__clear': 'contract'}, props=['C12', 'C01', 'C03', 'C18']),
@@ -196,7 +198,7 @@ UNITS += [
     # two machines produce equal buffers iff their activity states are equal: consequence of the canonical form (save's postcondition)
     # and of bitWidth's contract -- lemma over the contracts, no library code involved
     dict(id='serial.lemma.canonical', witness=WS, recs=SE_RECS, opaque=SE_OPAQUE, props=['C12'], target=dict(ghost='lemma_canonical'),
-         consts=SE_CONSTS, ghost=SE_GHOST, need_consts=['C_.WIDTH_BITS', 'C_.WIDTH'], also=[],
+         consts=SE_CONSTS, ghost=SE_GHOST, need_consts=['RF_.SERIAL_BITS', 'ArgsT.SERIAL_BITS', 'C_.WIDTH_BITS', 'C_.WIDTH'], also=[],
          ghost_fns={'lemma_canonical': dict(
              sig='void lemma_canonical(_Bool act1, uint8_t st1, _Bool act2, uint8_t st2)',
              body='{\n\t_Bool same = 1;\n\tfor (unsigned q = 0; q < 9; ++q) if (ENC_BIT(act1, st1, q) != ENC_BIT(act2, st2, q)) same = 0;\n'
